@@ -59,8 +59,8 @@ def exact_of(v, what, counts):
     except (TypeError, ValueError):
         raise Violation(f"{what}-not-a-number", f"{what}({counts}) returned {v!r}")
     if not math.isfinite(f):
-        raise Violation(f"{what}-not-finite", f"{what}({counts}) = {v!r} although the estimate is defined for N = {sum(counts)}")
-    return Fraction(v)
+        raise Violation(f"{what}-not-finite", f"{what}({str(counts)[:80]}) = {v!r} although the estimate is defined")
+    return Fraction(f)          # the exact value of the returned float (whatever float type it came as)
 
 
 def unbiased_pc(counts):
@@ -85,9 +85,13 @@ def check_large(case, rec):
     """Sample sizes far beyond what can be enumerated (clone sizes of deeply sequenced repertoires: 10^5 .. 10^9 reads). Unbiasedness
     for every p at fixed N determines the estimator uniquely, so the returned float must be the closed form above."""
     counts = case["counts"]
+    if "long" in case:
+        # a count vector with very many entries (one per clonotype of a deep repertoire), generated from a few numbers
+        n, a, b = case["long"]
+        counts = [1 + (i * a) % b for i in range(n)]
     N = sum(counts)
     dt = {"int64": np.int64, "uint64": np.uint64, "int32": np.int32, "uint32": np.uint32, "float64": np.float64}[case["dtype"]]
-    rec.note(case, len(counts) >= 2 and max(counts) >= 2 ** 21, [case["dtype"], f"N~1e{len(str(N)) - 1}", case["container"]])
+    rec.note(case, len(counts) >= 2 and (max(counts) >= 2 ** 21 or len(counts) > 65536), [case["dtype"], f"N~1e{len(str(N)) - 1}", case["container"], "long" if "long" in case else "short"])
     arr = np.array(counts, dtype=dt)
     if case["container"] == "list":
         arr = [int(c) for c in counts]
@@ -97,14 +101,14 @@ def check_large(case, rec):
     want = unbiased_pc(counts)
     got = exact_of(call("pc_n", pyrepseq.pc_n, arr), "pc_n", counts)
     if not close(got, want, 1e-11):
-        raise Violation("pc_n-large-counts", f"pc_n({counts}, {case['dtype']}) = {float(got)!r}, unbiased estimator = {float(want)!r}")
+        raise Violation("pc_n-large-counts", f"pc_n({counts[:8]}{'..' if len(counts) > 8 else ''} ({len(counts)} entries), {case['dtype']}) = {float(got)!r}, unbiased estimator = {float(want)!r}")
     if N >= 4:
         wv = unbiased_var(counts)
         gv = exact_of(call("varpc_n", pyrepseq.varpc_n, arr), "varpc_n", counts)
         # float64 evaluation of a difference of terms of size ~pc^2: absolute error a few ulp of pc^2, far below any wrap-around
-        tol = Fraction(1, 10 ** 6) * abs(wv) + Fraction(1, 10 ** 10) * want * want + Fraction(1, 10 ** 300)
+        tol = Fraction(1, 10 ** 9) * abs(wv) + Fraction(1, 10 ** 12) * want * want + Fraction(1, 10 ** 300)
         if abs(gv - wv) > tol:
-            raise Violation("varpc_n-large-counts", f"varpc_n({counts}, {case['dtype']}) = {float(gv)!r}, unbiased estimator = {float(wv)!r}")
+            raise Violation("varpc_n-large-counts", f"varpc_n({counts[:8]}{'..' if len(counts) > 8 else ''} ({len(counts)} entries), {case['dtype']}) = {float(gv)!r}, unbiased estimator = {float(wv)!r}")
         sd_raw = call("stdpc_n", pyrepseq.stdpc_n, arr)
         if gv > 0:                       # an unbiased variance estimate may be <= 0; its root is then undefined, not wrong
             sd = exact_of(sd_raw, "stdpc_n", counts)
@@ -213,7 +217,7 @@ def check_two(case, rec):
     K = len(wp)
     p, q = probs(wp), probs(wq)
     style = case.get("labels", "int")
-    rec.note(case, K >= 2 and (len(set(wp)) > 1 or len(set(wq)) > 1), [f"K={K}", f"labels={style}"])
+    rec.note(case, K >= 2 and (len(set(wp)) > 1 or len(set(wq)) > 1), [f"K={K}", f"labels={style}", case.get("container", "list")])
     want = sum(a * b for a, b in zip(p, q))
     e = Fraction(0)
     for c1 in O.compositions(N1, K):
@@ -232,6 +236,16 @@ def check_two(case, rec):
                 a1 = pd.DataFrame(s1, columns=["TRBV", "CDR3B"])
                 a2 = pd.DataFrame(s2, columns=["TRBV", "CDR3B"])
                 v = float(call("pc2", pyrepseq.pc, a1, a2))
+            elif case.get("container", "list") != "list":
+                import pandas as pd
+                kind = case["container"]
+                if kind == "categorical":      # each sample converted on its own: the two category lists (and codes) differ
+                    o1, o2 = pd.Series(s1).astype("category"), pd.Series(s2).astype("category")
+                elif kind == "series":
+                    o1, o2 = pd.Series(s1, index=range(len(s1), 0, -1)), pd.Series(s2, index=[f"b{i}" for i in range(len(s2))])
+                else:
+                    o1, o2 = np.array(s1), np.array(s2)
+                v = float(call("pc2", pyrepseq.pc, o1, o2))
             else:
                 v = float(call("pc2", pyrepseq.pc, s1, s2))
             exact = Fraction(sum(a * b for a, b in zip(c1, c2)), N1 * N2)
@@ -259,11 +273,15 @@ def two_case(draw, tier="quick"):
             "p": draw(st.lists(st.integers(1, 12), min_size=K, max_size=K)),
             "q": draw(st.lists(st.integers(1, 12), min_size=K, max_size=K)),
             "labels": draw(st.sampled_from(["int", "prefix", "prefix", "suffix_digits", "equal_width", "table_rows"])),
-            "order": draw(st.sampled_from(["sorted", "reversed", "interleaved"]))}
+            "order": draw(st.sampled_from(["sorted", "reversed", "interleaved"])),
+            "container": draw(st.sampled_from(["list", "list", "categorical", "series", "ndarray"]))}
 
 
 @st.composite
 def large_case(draw, tier="quick"):
+    if draw(st.integers(0, 9)) == 0:
+        return {"counts": [], "long": [draw(st.sampled_from([65535, 65536, 65537, 70000, 131073, 300000])), draw(st.integers(1, 97)), draw(st.sampled_from([2, 7, 50, 1000, 2 ** 20]))],
+                "dtype": draw(st.sampled_from(["int64", "int32", "uint32", "float64"])), "container": draw(st.sampled_from(["ndarray", "list", "series"]))}
     K = draw(st.integers(1, 6))
     big = st.one_of(st.integers(2 ** 15, 2 ** 17), st.integers(2 ** 20, 2 ** 24), st.integers(2 ** 30, 2 ** 31 - 1),
                     st.sampled_from([46340, 46341, 65535, 65536, 2097151, 2097152, 2097153, 3037000499 // 1000, 2 ** 31 - 1]))
